@@ -29,7 +29,9 @@ def decOp (S : Schema) (ty : Ty) (h : String) : String :=
 def handle (S : Schema) (line : String) : String :=
   match words line with
   | ["wf"] =>
-    if S.wf then s!"ok {S.ctors.size} {S.ifaces.size}" else "bad " ++ firstBad S
+    if !S.wf then "bad " ++ firstBad S
+    else if !S.extendsCore then "bad core-schema-differs"
+    else s!"ok {S.ctors.size} {S.ifaces.size} core={coreSchema.ctors.size}/{coreSchema.ifaces.size}"
   | ["dec", t, h] =>
     match parseTy t with
     | some ty => decOp S ty h
